@@ -158,6 +158,7 @@ int main(int argc, char **argv)
 	int litlen, linelen, clen, a, n, i;
 	long idx = 0, npat = 0;
 	nv_init(argc, argv);
+	nv_crash_guard("c12-crash");
 	litlen = atoi(nv_arg(argc, argv, "lit", nv_thorough ? "3" : "2"));
 	linelen = atoi(nv_arg(argc, argv, "len", nv_thorough ? "5" : "4"));
 	clen = atoi(nv_arg(argc, argv, "clen", nv_thorough ? "4" : "3"));
